@@ -64,13 +64,17 @@ PROPS = {
                        "values, convert() with symbolic stale writer state / class-level lists / parameter indent fields, "
                        "no mutation of the caller's routine lists, and the CLI reader's numbering after arbitrary earlier "
                        "reads; each must equal the result of a fresh object. ANTLR and igraph run concretely underneath. "
-                       "Concrete two-order histories in one process validate the inventory (model validation); the same inputs "
-                       "are also processed in 4 fresh interpreters with different PYTHONHASHSEED values and compared.",
+                       "Concrete histories cover state the inventory cannot know about (E): per process, every input is first run "
+                       "with all module- and class-level containers of the package restored to their import-time content "
+                       "(pristine), then again in three orders on reused compilers with the state carried over; inputs "
+                       "include programs that share texts between roles and nesting depths, and files in different "
+                       "directories that spell their imports alike. A difference is a replayable violation. The same "
+                       "inputs are also processed in 4 fresh interpreters with different PYTHONHASHSEED values.",
         "technique": "CrossHair+z3 havoc lemmas: real compile()/convert() executed with symbolic stale state, result "
                      "compared with a fresh baseline",
         "level_text": "One-step havoc over the inventoried state is solver-decided for 3 inputs per entry point; the "
-                      "stale-memo-table lemma (recycled graph ids) is not encoded; fresh-process determinism is only "
-                      "enumerated (4 interpreters, different hash seeds).",
+                      "stale-memo-table lemma (recycled graph ids) is not encoded; state outside the inventory (a memo or "
+                      "cache added later) and fresh-process determinism are only reachable by the enumerated histories.",
         "level_note": "Trusted: CrossHair, z3; the inventory of surviving state (instance attributes reset in "
                       "compile()/convert(), class-level lists, param.indent, cli counter). The id()-keyed memo table is "
                       "only exercised by the concrete histories.",
